@@ -111,6 +111,8 @@ func (e *Engine) initialState() *State {
 		st.g.Vers[t] = st.declare("vers0."+t, SInt)
 	}
 	st.assume(And(Ge(st.g.BucketLastCas, IntLit(0))))
+	// the declared database invariant holds in every reachable state (T1): assumed at entry for every row
+	e.assumeDBInv(st)
 	return st
 }
 
